@@ -243,12 +243,27 @@ def run_hist(key, op, shape, ls0, first, tie, mk):
     return a, b
 
 
+REPLAY_GAMMA = [None]   # replays of the 'ufgamma' variant: the concrete value the callback returns
+
+
 def run_mon(key, op, shape, variant, tie, mk):
     """(write log, dict unchanged?, opaque log, hash calls, result, result on rebuilt ratings)"""
     Model = H.model_class(key)
     Rating = H.rating_class(key)
     Mon, wlog = monitored(Model)
     kw = dict(beta=mk('beta'), kappa=mk('kappa'), tau=mk('tau'))
+    if variant and len(variant) > 2 and variant[2] == 'ufgamma':
+        # a custom gamma callback whose value is unconstrained (any sign): a model that reacts to an odd value by
+        # re-configuring itself writes an attribute on that path
+        from sx import core as _core
+
+        def G(c, k, mu, ss, team, rank):
+            if REPLAY_GAMMA[0] is not None:
+                return REPLAY_GAMMA[0]
+            return _core.uf_app_n('gamma', [c, mu, ss], consts=(k, rank, len(team)), rf=_core.TOP,
+                                  shadow=lambda c_, mu_, ss_: 0.3 + 0.1 * abs(float(mu_)) % 1.0)
+        kw['gamma'] = G
+        variant = variant[:2]
     m = Mon(**kw)
     object.__setattr__(m, '_armed', True)
     d0 = {k: v for k, v in m.__dict__.items() if k != '_armed'}
@@ -386,6 +401,8 @@ def run_job(spec, ctx):
                     break
         return
     variants = [(t, l) for t in (None, 0.0, 'sym') for l in (None, True, False)] if op == 'rate' else [(None, None)]
+    if op == 'rate' and key not in H.TM and shape == (1, 1):
+        variants.append((None, None, 'ufgamma'))
     for variant, tie in itertools.product(variants, ties):
         if ctx.candidates:
             break
@@ -434,7 +451,12 @@ def replay(cand):
                 'detail': f'C14 {H.MODEL_NAMES[key]}(limit_sigma={cand["ls0"]}): {op} on shape {shape} after first call {cand["first"]} '
                           f'returns {a} but {b} on a fresh model; inputs={inp}'}
     variant = tuple(cand['variant'])
-    wlog, same_dict, ids_log, nhash, a, b = run_mon(key, op, shape, variant, cand['tie'], mk)
+    gvals = [-0.5, 0.0, 3.0, 1e12, -1e-9] if len(variant) > 2 else [None]
+    for gv in gvals:
+        REPLAY_GAMMA[0] = gv
+        wlog, same_dict, ids_log, nhash, a, b = run_mon(key, op, shape, variant, cand['tie'], mk)
+        if wlog or not same_dict or ids_log or nhash:
+            break
     fa, fb = list(H._flatten(a)), list(H._flatten(b))
     what = cand.get('what')
     if what == 'write':
